@@ -2,6 +2,126 @@
 from pvc.api import *
 
 
+def _havoc_fft2(m, n):
+    """symbolic run: fft2 returns an arbitrary complex array F (the library transform is not modelled); the argument it was given
+    is recorded.  Returns (F, seen, restore)."""
+    from pvc import symnp
+    F = Array('F', (m, n), 'c')
+    seen = {}
+    old = symnp.fft.__dict__.get('fft2')
+
+    def fake(a, *args, **kw):
+        seen['arg'] = a
+        return F
+    symnp.fft.fft2 = fake
+
+    def restore():
+        if old is None:
+            del symnp.fft.fft2
+        else:
+            symnp.fft.fft2 = old
+    return F, seen, restore
+
+
+@harness('C15', 'otf/dc-bin-at-origin-sample', variants=['mtf', 'otf', 'transform_psf'],
+         fuc=['prysm.otf.transform_psf', 'prysm.otf.mtf_from_psf', 'prysm.otf.otf_from_psf'])
+def otf_bins(which):
+    """MODULAR on the library transform (F = fft2 of what transform_psf hands to fft2: arbitrary in the symbolic run, the real
+    transform in the replay), for every shape of either parity: transform_psf stores DFT bin k at index k + n//2 on each axis, so
+    the zero-frequency bin is at the origin sample (m//2, n//2); mtf_from_psf = |F[bin]| / |F[0,0]| and otf_from_psf = F[bin] /
+    F[0,0] with that same bin map: both are exactly 1 at the origin sample whatever the PSF, and MTF = |OTF| sample by sample."""
+    m, n = Int('m', 1), Int('n', 1)
+    psf = Array('psf', (m, n))
+    dx = Real('dx', pos=True)
+    i, j = idx(m, 'i'), idx(n, 'j')
+    fn = {'mtf': 'mtf_from_psf', 'otf': 'otf_from_psf', 'transform_psf': 'transform_psf'}[which]
+    if MODE == 'symbolic':
+        F, seen, restore = _havoc_fft2(m, n)
+        try:
+            out = call('prysm.otf.' + fn, psf, dx)
+        finally:
+            restore()
+        assume(abs2(elem(F, 0, 0)) != 0)
+    else:
+        import numpy as np
+        F = np.fft.fft2(np.fft.ifftshift(psf))
+        assume(bool(abs(F[0, 0]) > 1e-6))
+        out = call('prysm.otf.' + fn, psf, dx)
+    bi, bj = (i - m // 2) % m, (j - n // 2) % n
+    if which == 'transform_psf':
+        data, df = out
+        check('bin-k-at-index-k+n//2', And(shape_is(data, m, n), approx(elem(data, i, j), elem(F, bi, bj), 1e-9)))
+        check('dc-bin-at-origin-sample', approx(elem(data, m // 2, n // 2), elem(F, 0, 0), 1e-9))
+        return
+    d = out.data
+    check('shape', shape_is(d, m, n))
+    if which == 'otf':
+        check('normalised-spectrum', approx(elem(d, i, j), elem(F, bi, bj) / elem(F, 0, 0), 1e-7))
+        check('one-at-the-origin-sample', approx(elem(d, m // 2, n // 2), 1, 1e-9))
+    else:
+        v = elem(d, i, j)
+        check('modulus-of-the-normalised-spectrum', And(v >= 0, approx(v * v * abs2(elem(F, 0, 0)), abs2(elem(F, bi, bj)), 1e-7)))
+        check('one-at-the-origin-sample', approx(elem(d, m // 2, n // 2), 1, 1e-9))
+
+
+@harness('C15', 'apply_transfer_functions/spectrum-product', variants=[dict(shift=sh, K=k) for sh in (True, False) for k in (1, 2, 3)],
+         fuc=['prysm.convolution.apply_transfer_functions'])
+def atf_product(v):
+    """MODULAR on the library transforms (fft2 returns an arbitrary complex F, ifft2 an arbitrary complex H; what each was
+    handed is recorded), for every shape of either parity and K = 1..3 transfer-function arrays: the spectrum handed to the
+    inverse transform is F times the PRODUCT of the list, bin for bin - in the shifted convention the transfer-function sample at
+    the centred index k + n//2 multiplies DFT bin k, in the unshifted convention sample k multiplies bin k - so a list equals
+    the single product transfer function and all-ones leaves the spectrum untouched; the object goes in with its origin sample
+    n//2 rolled to index 0 (shifted convention) and the result comes back the same way round."""
+    m, n = Int('m', 1), Int('n', 1)
+    obj = Array('obj', (m, n))
+    tfs = [Array('tf%d' % k, (m, n)) for k in range(v['K'])]
+    dx = Real('dx', pos=True)
+    i, j = idx(m, 'i'), idx(n, 'j')
+    sh = v['shift']
+    if MODE == 'symbolic':
+        from pvc import symnp
+        F, seen, restore = _havoc_fft2(m, n)
+        Hh = Array('H', (m, n), 'c')
+        old = symnp.fft.__dict__.get('ifft2')
+
+        def fake_inv(a, *args, **kw):
+            seen['inv'] = a
+            return Hh
+        symnp.fft.ifft2 = fake_inv
+        try:
+            out = call('prysm.convolution.apply_transfer_functions', obj, dx, tfs, shift=sh)
+        finally:
+            restore()
+            if old is None:
+                del symnp.fft.ifft2
+            else:
+                symnp.fft.ifft2 = old
+        fwd_arg, inv_arg = seen['arg'], seen['inv']
+    else:
+        import numpy as np
+        out = call('prysm.convolution.apply_transfer_functions', obj, dx, tfs, shift=sh)
+        fwd_arg = np.fft.ifftshift(obj) if sh else obj
+        F = np.fft.fft2(fwd_arg)
+        prod = np.ones((int(m), int(n)))
+        for t in tfs:
+            prod = prod * (np.fft.ifftshift(t) if sh else t)
+        inv_arg = F * prod
+        Hh = np.fft.ifft2(inv_arg)
+    ri, rj = ((i + m // 2) % m, (j + n // 2) % n) if sh else (i, j)
+    check('object-origin-rolled-to-index-0' if sh else 'object-as-is', approx(elem(fwd_arg, i, j), elem(obj, ri, rj), 1e-9))
+    want = elem(F, i, j)
+    for t in tfs:
+        want = want * elem(t, ri, rj)
+    check('spectrum-times-product-of-the-list-bin-for-bin', approx(elem(inv_arg, i, j), want, 1e-7))
+    check('shape', shape_is(out, m, n))
+    if sh:
+        check('result-origin-back-at-n//2', approx(elem(out, i, j), elem(Hh, (i - m // 2) % m, (j - n // 2) % n).real, 1e-7))
+    else:
+        # unshifted convention: nothing was rolled on the way in, so nothing may be rolled on the way out
+        check('result-not-rolled(shift=False)', approx(elem(out, i, j), elem(Hh, i, j).real, 1e-7))
+
+
 @harness('C15', 'bounded/convolution-and-mtf', kind='bounded',
          variants=['conv-algebra', 'conv-impulse', 'transfer-functions', 'transfer-function-callables', 'mtf-valid'],
          fuc=['prysm.convolution.conv', 'prysm.convolution.apply_transfer_functions', 'prysm.otf.transform_psf', 'prysm.otf.mtf_from_psf',
